@@ -3,7 +3,7 @@ PROP = dict(
         gens=['unsafe_sites'],
         lake=['IcyVerif.Props.C10'],
         ns='IcyVerif.C10',
-        theorems=['site_parse_hex_macro_sequence_0', 'hex_macro_body_bytes', 'site_read_data_compressed_0',
+        theorems=['site_parse_hex_macro_sequence_0', 'hex_macro_body_bytes', 'maxMacroLen_synced', 'site_read_data_compressed_0',
                   'all_sites_covered', 'fill_rect_scalar', 'clipboard_cell_scalar', 'clipboard_layer_scalar',
                   'icy_char_scalar', 'lossy_valid_utf8', 'lossy_id_on_valid', 'valid_utf8_decidable',
                   'font_keys_scalar', 'font_basic_keys_scalar', 'font_loops_scalar'],
